@@ -291,6 +291,11 @@ static void all_schedules(const struct scen* s, uint64_t* req_per_tok) {
   vf_cnt(VC_TRACES, 1);
   if (N > vf_cnt_get_local(K_MAXN)) vf_cnt(K_MAXN, N - vf_cnt_get_local(K_MAXN));
   vf_state(vf_mix((uint64_t)s->kind, N));
+  if (N >= 3 && (vf_cnt_get_local(K_SCEN) & 0x3fff) == 11) {
+    char hx[64] = "";
+    if (s->kind == SC_LOAD) vf_hex(hx, sizeof hx, s->in, s->n < 24 ? s->n : 24);
+    vf_sample("scenario kind %d %s%s: fault-free run makes %" PRIu64 " allocator requests -> %" PRIu64 " single-refusal + %" PRIu64 " fail-stop schedules", s->kind, s->kind == SC_LOAD ? "cbor_load of " : s->kind == SC_BUILDER ? BUILDERS[s->which].name : s->kind == SC_GROW ? GROW_NAME[s->which] : "(tree)", hx, N, N, N);
+  }
   for (uint64_t k = 0; k < N; k++) {
     struct sched a = {VA_FAIL_ONE, k, 0}, b = {VA_FAIL_FROM, k, 0};
     run_scenario(s, &a, req_per_tok);
